@@ -467,6 +467,12 @@ func sanitize(s string) string {
 
 // runTape executes one replayed tape and returns its violation (nil if none).
 func runTape(chk Check, o *Options, run uint64, vals []uint32, keep bool) (*Violation, *Ctx) {
+	// library code under test prints to stdout (gnark schema notes); keep the coordinator's output clean
+	if dn, err := os.OpenFile(os.DevNull, os.O_WRONLY, 0); err == nil {
+		saved := os.Stdout
+		os.Stdout = dn
+		defer func() { os.Stdout = saved; dn.Close() }()
+	}
 	c := &Ctx{T: tape.Replay(vals), S: NewStats(), Log: &EvLog{}, Tier: o.Tier, Seed: o.Seed, Run: run, Replay: true}
 	c.Log.Keep(keep)
 	v, err := execRun(chk, c)
